@@ -14,6 +14,7 @@ func init() {
 		ruleGRDcrc(w, r)
 		ruleCDC6b(w, r)
 		ruleGRDscan(w, r)
+		ruleORD11(w, r) // the offset a resync starts from never lags behind the frames already applied
 	})
 }
 
@@ -31,6 +32,7 @@ func init() {
 		ruleORD10(w, r) // a crash inside a precision change must leave an openable directory
 		ruleORD4(w, r)  // a refused compaction must not end a running snapshot's shadow mode
 		ruleORD9(w, r)  // a crash right after a snapshot must not lose writes that were being applied while it was taken
+		ruleORD11(w, r) // the offset a torn tail is truncated to never lags behind the frames already applied
 	})
 	register("C14", "no acknowledged write lost to snapshot/compaction/shutdown", func(w *World, r *Report) {
 		ruleORD1(w, r)
@@ -54,7 +56,9 @@ func init() {
 		ruleORDvalidate(w, r)
 		ruleEFFcomposite(w, r)
 		ruleEFFreadd(w, r)
-		ruleWEB7(w, r) // … and the same for handlers that string several engine calls together
+		ruleWEB7(w, r)      // … and the same for handlers that string several engine calls together
+		ruleORD4(w, r)      // a refused compaction/snapshot must not end someone else's shadow mode
+		ruleEFFcreate(w, r) // duplicate index name: rejected means unchanged
 	})
 	register("C01", "clean restart reproduces the pre-shutdown state", func(w *World, r *Report) {
 		ruleJRN12(w, r, nil)
@@ -70,6 +74,7 @@ func init() {
 		ruleCDC9(w, r)  // a compaction re-emits every edge and every key-value pair
 		ruleCDC11(w, r) // index configuration durations survive the journal unchanged
 		ruleSIBnumtypes(w, r)
+		ruleCDC12(w, r) // the snapshot carries every node, soft-deleted ones included
 	})
 }
 
@@ -80,12 +85,15 @@ func init() {
 		ruleGRDorder(w, r)
 		ruleGRDxlate(w, r)
 		ruleGRDscope(w, r)
-		ruleSIBviews(w, r)    // graph-scoped search reads the reverse view: both views must agree
-		ruleGRDdupcheck(w, r) // no duplicates: one live node per external id
-		ruleORDdel(w, r)      // a deleted vector takes its secondary-index entries with it (text/filter hits)
-		ruleCDC8(w, r)        // … and stays deleted across a restart (tombstones reach snapshot-restored indexes)
-		ruleGRDdescent(w, r)  // live vectors stay findable when the top layer holds only tombstones
-		ruleCDC10(w, r)       // graph scope is built from whole node ids
+		ruleSIBviews(w, r)      // graph-scoped search reads the reverse view: both views must agree
+		ruleGRDdupcheck(w, r)   // no duplicates: one live node per external id
+		ruleORDdel(w, r)        // a deleted vector takes its secondary-index entries with it (text/filter hits)
+		ruleCDC8(w, r)          // … and stays deleted across a restart (tombstones reach snapshot-restored indexes)
+		ruleGRDdescent(w, r)    // live vectors stay findable when the top layer holds only tombstones
+		ruleCDC10(w, r)         // graph scope is built from whole node ids
+		ruleGRDalias(w, r)      // a filter result that aliases the stored bitmap is narrowed in place by the search
+		ruleGRDfusionNorm(w, r) // the text maximum is taken over the in-scope documents
+		ruleGRDorphan(w, r)     // a live vector that no search can reach is missing from every result
 	})
 }
 
@@ -99,6 +107,8 @@ func init() {
 		ruleSIBnumtypes(w, r)
 		ruleSIBnumconv(w, r)
 		ruleGRDverbatimFilter(w, r)
+		ruleGRDstaleLookup(w, r) // an inner index map read before the pruning of old entries is not written afterwards
+		ruleGRDverbatimKey(w, r) // string equality asks the inverted index for the value as written
 	})
 }
 
@@ -110,6 +120,7 @@ func init() {
 		ruleCDC123(w, r, map[string]bool{"GLINK": true, "GUNLINK": true})
 		ruleCDC4(w, r, map[string]bool{"GLINK": true, "GUNLINK": true})
 		ruleGRDtime(w, r)
+		ruleJRN5(w, r) // a link request that names an inverse relation is not acknowledged from a look at the forward edge alone
 	})
 	register("C11", "graph queries compute exact bounded reachability and shortest paths", func(w *World, r *Report) {
 		ruleGRDbfs(w, r, []bfsSpec{{"pkg/engine", "Engine.resolveGraphFilter", 5}, {"pkg/engine", "Engine.VExtractSubgraph", 5}, {"pkg/engine", "Engine.FindPath", 0}}, "GRD-bfs")
@@ -117,11 +128,13 @@ func init() {
 		ruleGRDtime(w, r)
 		ruleSIBviews(w, r) // the backward frontier and incoming scope read the reverse view: it must mirror the forward one
 		ruleCDC10(w, r)
+		ruleGRDreslice(w, r) // the next frontier never shares its backing array with the frontier being expanded
 	})
 	register("C12", "deleting a node leaves no live edge to or from it", func(w *World, r *Report) {
 		ruleSIB4(w, r)
 		ruleSIBviews(w, r)
-		ruleCDC10(w, r) // the cascade names each neighbour by the node id it takes out of the graph id
+		ruleCDC10(w, r)         // the cascade names each neighbour by the node id it takes out of the graph id
+		ruleGRDcascadeAll(w, r) // every edge of the deleted node is unlinked, whatever its other end is
 	})
 }
 
@@ -157,10 +170,12 @@ func init() {
 		ruleLCK8(w, r) // an acknowledged insert must not vanish when the node array grows
 		ruleLCK8b(w, r, lr)
 		ruleGRDdupcheck(w, r)
-		ruleORDvalidate(w, r) // a rejected compression leaves the index readable
-		ruleGRDtrained(w, r)  // a stored int8 vector is what was added, not zeros from an untrained quantizer
-		ruleGRDownarg(w, r)   // the record written is the record the caller keeps: insertion never rewrites the caller's vector
-		ruleCDC10(w, r)       // ids that contain the graph separator are read back whole
+		ruleORDvalidate(w, r)      // a rejected compression leaves the index readable
+		ruleGRDtrained(w, r)       // a stored int8 vector is what was added, not zeros from an untrained quantizer
+		ruleGRDownarg(w, r)        // the record written is the record the caller keeps: insertion never rewrites the caller's vector
+		ruleCDC10(w, r)            // ids that contain the graph separator are read back whole
+		ruleGRDtrainedEnsure(w, r) // a vector stored through an untrained quantizer reads back as zeros
+		ruleGRDclockid(w, r)       // two evolutions of one memory in the same second must get different ids
 	})
 }
 
@@ -171,6 +186,8 @@ func init() {
 		ruleGRDorder(w, r)
 		ruleSIB1(w, r)
 		ruleWEBverbatim(w, r)
+		ruleGRDfusionNorm(w, r)                                                              // max-normalised text score: the maximum of the list that is fused
+		ruleGRDmaporder(w, r, [][2]string{{"pkg/engine", "Engine.detectTextFieldForIndex"}}) // which text field a hybrid query is scored on does not depend on map order
 	})
 	register("C15", "memory decay and reinforcement obey their stated laws", func(w *World, r *Report) {
 		ruleTBLmodels(w, r)
@@ -182,6 +199,7 @@ func init() {
 		ruleSIBmetatypes(w, r)
 		ruleGRDdecaylocal(w, r)
 		ruleUNI2(w, r)
+		ruleGRDfreshcfg(w, r) // the layer table of one index is not the layer table of every index
 	})
 }
 
@@ -207,7 +225,11 @@ func init() {
 		ruleGRDkernel(w, r) // wrong-dimension queries must come back as errors, not BLAS/index panics
 		ruleCDC8(w, r)      // a request answered 4xx after its record was journaled must stay without effect on replay
 		ruleWEB6b(w, r)
-		ruleGRDslice(w, r) // the request-driven filter parser never slices out of range
+		ruleGRDslice(w, r)     // the request-driven filter parser never slices out of range
+		ruleGRDalloc(w, r)     // no request-controlled integer sizes an allocation unchecked
+		ruleWEB10(w, r)        // no raw request string becomes a metric label (WithLabelValues panics on invalid UTF-8)
+		ruleEFFcreate(w, r)    // a create answered 409 leaves the index that owns the name untouched
+		ruleGRDdimension(w, r) // the wrong-dimension guard cannot be switched off by deleting one vector
 	})
 }
 
@@ -230,6 +252,8 @@ func init() {
 		ruleLCK5f(w, r, lr, func(g string) bool {
 			return strings.HasPrefix(g, "mmap.VectorArena.") || strings.HasPrefix(g, "distance.Quantizer.") || g == "hnsw.Index.activeMu"
 		})
+		ruleGRDtrainedEnsure(w, r) // the 'is it trained' question is asked of the current quantizer on every call
+		ruleGRDquerynorm(w, r)     // an int8 cosine query is quantised in the range trained on unit-length vectors
 	})
 }
 
@@ -241,6 +265,8 @@ func init() {
 		ruleGRDcache(w, r)
 		ruleSIBcachekeys(w, r)
 		ruleGRDinval(w, r)
+		ruleGRDclockid(w, r)   // two answers cached in the same second must get different ids
+		ruleGRDmatchdist(w, r) // an identical prompt (similarity rounding above 1) is still the closest match
 	})
 }
 
@@ -256,6 +282,7 @@ func init() {
 		ruleGRDslice(w, r)
 		ruleGRDverbatim(w, r)
 		ruleGRDchunkloop(w, r)
+		ruleGRDpureText(w, r) // same input, same output: the analysers keep no state between calls
 	})
 }
 
@@ -270,6 +297,8 @@ func init() {
 		ruleGRDrelink(w, r)
 		ruleGRDquerynorm(w, r)
 		ruleGRDdescent(w, r)
-		ruleGRDwiden(w, r) // the distances the graph is built and searched with
+		ruleGRDwiden(w, r)  // the distances the graph is built and searched with
+		ruleCDC12(w, r)     // a restart must not lose the tombstones live nodes link through
+		ruleGRDorphan(w, r) // delete everything, add again: the new vectors must be reachable
 	})
 }
